@@ -2093,3 +2093,151 @@ func E7GlobalMapEscapes(c *core.Ctx, r *core.Report) {
 		r.OK("E7.global-map-escapes", "module|loads of package-level maps", c.Pos(c.MustPkg("").Syntax[0].Pos()), fmt.Sprintf("%d loads, all looked up, ranged over or measured in place", loads))
 	}
 }
+
+// E7OptionsCopied: a renderer that changes its options works on its own copy of them.
+func E7OptionsCopied(c *core.Ctx, r *core.Report) {
+	r.Rule("E7.options-copied", "the renderers take a `*Options` from their caller, who may well build one value and create many renderers from it, on several goroutines. A renderer package in which anything is stored through that pointer after construction (`r.opts.F = v` in a method, `opts.F = v` in New) must therefore not keep the caller's pointer: in New, on every path, the parameter is re-pointed at a local (`opts = &local`, the local being the defaults or `*opts` copied) before it is stored in the renderer or written through; only `opts == nil` tests and the copy `*opts` may read it before that. With the caller's pointer kept, SetImageEncoding on one renderer changes every renderer made from the same Options, and doing so from two goroutines is a data race")
+	n := 0
+	for _, rel := range []string{"renderers/pdf", "renderers/svg", "renderers/ps", "renderers/rasterizer"} {
+		p := c.MustPkg(rel)
+		info := p.TypesInfo
+		var newFd *ast.FuncDecl
+		for _, fd := range core.AllFuncDecls(p) {
+			if fd.Recv == nil && fd.Name.Name == "New" && fd.Body != nil {
+				newFd = fd
+			}
+		}
+		if newFd == nil {
+			continue
+		}
+		// the *Options parameter
+		var po types.Object
+		for _, f := range newFd.Type.Params.List {
+			if isNamedDeref(info.TypeOf(f.Type), "Options") {
+				if _, isPtr := info.TypeOf(f.Type).(*types.Pointer); isPtr && len(f.Names) == 1 {
+					po = info.Defs[f.Names[0]]
+				}
+			}
+		}
+		if po == nil {
+			continue
+		}
+		// does the package store through an Options pointer?
+		var write ast.Node
+		var writeFn string
+		for _, fd := range core.AllFuncDecls(p) {
+			if fd.Body == nil {
+				continue
+			}
+			ast.Inspect(fd.Body, func(m ast.Node) bool {
+				as, ok := m.(*ast.AssignStmt)
+				if !ok {
+					return true
+				}
+				for _, l := range as.Lhs {
+					if se, ok := l.(*ast.SelectorExpr); ok {
+						if _, isPtr := info.TypeOf(se.X).(*types.Pointer); isPtr && isNamedDeref(info.TypeOf(se.X), "Options") && write == nil {
+							write, writeFn = as, core.FuncName(fd)
+						}
+					}
+				}
+				return true
+			})
+		}
+		key := fmt.Sprintf("%s.New|options written through after construction are the renderer's own copy", strings.TrimPrefix(rel, "renderers/"))
+		if write == nil {
+			r.OK("E7.options-copied", key, c.Pos(newFd.Pos()), "nothing in the package stores through an *Options")
+			continue
+		}
+		n++
+		r.Func(rel + ".New")
+		isP := func(e ast.Expr) bool {
+			id, ok := core.Unparen(e).(*ast.Ident)
+			return ok && core.ObjOf(info, id) == po
+		}
+		// reads of the parameter other than nil tests and `*opts`
+		usesP := func(nd ast.Node) token.Pos {
+			var at token.Pos
+			var visit func(nd ast.Node)
+			visit = func(nd ast.Node) {
+				ast.Inspect(nd, func(q ast.Node) bool {
+					if at != token.NoPos {
+						return false
+					}
+					switch x := q.(type) {
+					case *ast.BinaryExpr:
+						if (x.Op == token.EQL || x.Op == token.NEQ) && (isP(x.X) || isP(x.Y)) {
+							return false
+						}
+					case *ast.StarExpr:
+						if isP(x.X) {
+							return false
+						}
+					case *ast.Ident:
+						if core.ObjOf(info, x) == po {
+							at = x.Pos()
+						}
+					}
+					return true
+				})
+			}
+			visit(nd)
+			return at
+		}
+		var bad token.Pos
+		var walk func(list []ast.Stmt, fresh bool) bool
+		walk = func(list []ast.Stmt, fresh bool) bool {
+			for _, st := range list {
+				if fresh || bad != token.NoPos {
+					return fresh
+				}
+				switch x := st.(type) {
+				case *ast.AssignStmt:
+					if len(x.Lhs) == 1 && len(x.Rhs) == 1 && isP(x.Lhs[0]) && x.Tok == token.ASSIGN {
+						if u, ok := core.Unparen(x.Rhs[0]).(*ast.UnaryExpr); ok && u.Op == token.AND {
+							if id, ok := core.Unparen(u.X).(*ast.Ident); ok {
+								if v, ok := core.ObjOf(info, id).(*types.Var); ok && v.Parent() != p.Types.Scope() && v != po {
+									fresh = true
+									continue
+								}
+							}
+						}
+					}
+					if at := usesP(x); at != token.NoPos {
+						bad = at
+					}
+				case *ast.IfStmt:
+					if at := usesP(x.Cond); at != token.NoPos {
+						bad = at
+						return false
+					}
+					a := walk(x.Body.List, fresh)
+					b := fresh
+					switch e := x.Else.(type) {
+					case *ast.BlockStmt:
+						b = walk(e.List, fresh)
+					case *ast.IfStmt:
+						b = walk([]ast.Stmt{e}, fresh)
+					}
+					fresh = a && b
+				default:
+					if at := usesP(st); at != token.NoPos {
+						bad = at
+					}
+				}
+			}
+			return fresh
+		}
+		fresh := walk(newFd.Body.List, false)
+		switch {
+		case bad != token.NoPos:
+			r.Fail("E7.options-copied", key, c.Pos(bad), fmt.Sprintf("New uses the caller's *Options here before pointing the parameter at a local copy, and %s stores through the renderer's options (%s): renderers made from one Options value change each other, and doing so concurrently is a data race", writeFn, c.Src(write)))
+		case !fresh:
+			r.Fail("E7.options-copied", key, c.Pos(newFd.Pos()), fmt.Sprintf("New never points the parameter at a local copy, and %s stores through the renderer's options (%s)", writeFn, c.Src(write)))
+		default:
+			r.OK("E7.options-copied", key, c.Pos(newFd.Pos()), "copied on every path; written by "+writeFn)
+		}
+	}
+	r.Count("E7.renderers-writing-options", n)
+	r.Floor("E7.renderers-writing-options", 2)
+}
